@@ -92,15 +92,15 @@ def run(ctx, eng):
            '; '.join(sorted(set(bad))) or 'AltSvcFrame(0){origin, field} or '
            'the stream\'s own frame', node=fi.node)
     fi = eng.m.func('stream.H2Stream.advertise_alternative_service')
-    ok = False
+    ok = cm.Every()
     for p in cm.normal_paths(eng.I.run(fi)):
         frames = [e for e in p.events if e.kind == 'new' and
                   e.cls == 'AltSvcFrame']
         if len(frames) == 1:
             f = p.state.objs.get(frames[0].obj, {})
-            ok = cm.is_self_attr(f.get('stream_id'), 'stream_id') and \
-                f.get('field') == ('p', 'field_value') and \
-                'origin' not in f
+            ok(cm.is_self_attr(f.get('stream_id'), 'stream_id') and
+               f.get('field') == ('p', 'field_value') and
+               'origin' not in f)
     ctx.ob('FLOW.send', fi.qual, 'stream frame fields', ok,
            'AltSvcFrame(self.stream_id){field} without origin', node=fi.node)
     # ---- receive, stream 0
@@ -179,11 +179,14 @@ def run(ctx, eng):
            'set from the first (request) block of a client stream only',
            node=fi.node)
     fi = eng.m.func('stream.H2Stream.remotely_pushed')
-    ok = False
-    for p in cm.normal_paths(eng.I.run(fi)):
+    np_ = cm.normal_paths(eng.I.run(fi))
+    ok = bool(np_)
+    for p in np_:
         ws = [e for e in p.events if e.kind == 'write' and
               e.attr == '_authority']
-        ok = len(ws) == 1 and ws[0].value[0] == 'call' and \
+        # on every path: the origin of a pushed stream is that of the
+        # promised request, whatever the parent asked for
+        ok = ok and len(ws) == 1 and ws[0].value[0] == 'call' and \
             ws[0].value[1].endswith('authority_from_headers') and \
             ws[0].value[2][-1] == ('p', 'pushed_headers')
     ctx.ob('OWN.authority', fi.qual, 'authority of the promised request', ok,
@@ -204,13 +207,13 @@ def run(ctx, eng):
            'written by %s' % sorted(writers))
     # authority_from_headers picks :authority
     fi = eng.m.func('utilities.authority_from_headers')
-    ok = False
+    ok = cm.Every()
     for p in eng.I.run(fi):
         if p.exit == 'return' and p.value != T.NONE:
             conds = [e.cond for e in p.events if e.kind == 'assume']
-            ok = any(c[0] == 'in' and cm.tuple_items(c[2]) is not None and
-                     {cm.const_of(x) for x in cm.tuple_items(c[2])} ==
-                     {b':authority', ':authority'} for c in conds)
+            ok(any(c[0] == 'in' and cm.tuple_items(c[2]) is not None and
+                   {cm.const_of(x) for x in cm.tuple_items(c[2])} ==
+                   {b':authority', ':authority'} for c in conds))
     # ... wherever it stands in the block: the scan is not cut short (the
     # blocks this is called on may not have been validated, and the value
     # is what a stream advertisement is attributed to)
